@@ -92,7 +92,7 @@ class ParseWalk(object):
 
         def on_call(st, t, node):
             f = t[1]
-            if f[0] == 'attr' and f[2] == 'pop' and not t[2] and not t[3]:
+            if f[0] == 'attr' and f[2] in ('pop', 'popleft') and not t[2] and not t[3]:
                 kind = 'popped' if (f[1][0] == 'alloc' and f[1][1] == 'list') else 'token'
                 k = st.data.get(kind, 0)
                 st.data[kind] = k + 1
@@ -107,18 +107,27 @@ class ParseWalk(object):
         self.loops = [n for n in ast.walk(fn) if isinstance(n, (ast.While, ast.For))]
 
     def token_chars(self, st, pol=True):
-        """characters the first token of the iteration is known to be among on this path, or None"""
-        tok = ('sym', 'token', 0)
+        """characters the token of the iteration is known to be among on this path (the first positive membership /
+        equality test of one term against delimiter characters), or None.  The token is whatever term the reader
+        dispatches on: a value popped from the token list, an element read through a cursor, ..."""
         for c, p_, _ in st.conds:
             f = logic.formula(c)
             if not p_:
                 f = logic.neg(f)
-            if f[0] == 'atom' and f[1][0] == 'in' and f[1][1] == tok and f[1][2][0] == 'const' and isinstance(f[1][2][1], str):
+            if f[0] != 'atom':
+                continue
+            if f[1][0] == 'in' and f[1][2][0] == 'const' and isinstance(f[1][2][1], str) and f[1][2][1] and set(f[1][2][1]) <= set('()<>/\\|[]'):
                 return set(f[1][2][1])
-            if f[0] == 'atom' and f[1][0] == 'eq' and tok in f[1][1:]:
-                other = [x for x in f[1][1:] if x != tok]
-                if other and other[0][0] == 'const' and isinstance(other[0][1], str):
-                    return {other[0][1]}
+            if f[1][0] == 'in' and f[1][2][0] in ('tuple', 'list', 'set') and f[1][2][1] and all(
+                    x[0] == 'const' and isinstance(x[1], str) and x[1] in tuple('()<>/\\|[]') for x in f[1][2][1]):
+                return {x[1] for x in f[1][2][1]}
+            if f[1][0] == 'in' and f[1][2][0] == 'dict' and f[1][2][1] and all(
+                    k is not None and k[0] == 'const' and isinstance(k[1], str) and k[1] in tuple('()<>/\\|[]') for k, _v in f[1][2][1]):
+                return {k[1] for k, _v in f[1][2][1]}
+            if f[1][0] == 'eq':
+                consts = [x for x in f[1][1:] if x[0] == 'const' and isinstance(x[1], str) and x[1] in tuple('()<>/\\|[]')]
+                if len(consts) == 1 and st.conds and c is st.conds[0][0]:
+                    return {consts[0][1]}
         return None
 
 
@@ -190,12 +199,17 @@ def r_delimiters(mod, rep, R='R5.1'):
     # the text is tokenised with the delimiter regex
     text = N(pw.text)
     ok = False
+    padded = ('call', A(N(TOK), 'sub'), (C(' \\1 '), text), ())
+    chunks = ('call', A(N(TOK), 'split'), (text,), ())
     for st, o in pw.paths:
         for t in terms_of(st):
             for s_ in subterms(t):
-                if style == 'split' and s_[0] == 'call' and s_[1][0] == 'attr' and s_[1][2] == 'split' and s_[2] == (C(' '),) \
-                        and s_[1][1] == ('call', A(N(TOK), 'sub'), (C(' \\1 '), text), ()):
-                    ok = True
+                # the delimiters are cut out by the regex (kept, thanks to its capturing group) and the rest is cut at blanks:
+                # either the padded text as a whole, or each chunk between delimiters
+                if style == 'split' and s_[0] == 'call' and s_[1][0] == 'attr' and s_[1][2] == 'split' and s_[2] in ((C(' '),), ()):
+                    recv = s_[1][1]
+                    if recv == padded or (recv[0] == 'elem' and recv[1] == chunks):
+                        ok = True
                 if style != 'split' and s_ == ('call', A(N(TOK), 'findall'), (text,), ()):
                     ok = True
     rep.check(ok, R, '%s:%s Category.parse' % (REL, parse.lineno), 'delimiters:tokenise',
